@@ -1,7 +1,7 @@
 (* C18 — Staging and deployment never write outside their target directory.  Property theorems only. *)
 From Coq Require Import String List Bool.
 Import ListNotations.
-Require Import V.Path.Model V.Path.Proofs V.Path.Archive.
+Require Import V.Path.Model V.Path.Proofs V.Path.Archive V.Path.Deploy.
 Open Scope string_scope.
 
 (* For the SPECIFIED check (every member, and every link target, stays in the destination after
@@ -59,6 +59,24 @@ Theorem C18_manifest_no_redirect : forall (tgt : list string) (man : list entry)
 Proof. exact manifest_no_redirect. Qed.
 Print Assumptions C18_manifest_no_redirect.
 
+(* The files the deployment writes itself — <instance>/conf (made unless the manifest has that key) and the
+   package file conf/flowir_package.yaml or conf/dsl.yaml — are not reached through a manifest target that
+   is a link: for a manifest accepted by the deployment's checks (Manifest.validate + the conf rule of the
+   repair of F18d) they are created exactly at these names. *)
+Theorem C18_deploy_self_no_redirect : forall (dsl : bool) (tgt : list string) (man : list entry),
+  deploy_ok dsl man = true ->
+  deploy_self dsl tgt man =
+  ((if has_conf_key man then [] else [tgt ++ ["conf"]]) ++ [tgt ++ ["conf"; conf_file dsl]])%list.
+Proof. exact deploy_self_lexical. Qed.
+Print Assumptions C18_deploy_self_no_redirect.
+
+(* Hence, whatever the manifest: everything a deployment creates or writes (the manifest's targets and its own
+   files; nothing when the manifest is refused) is beneath the new instance directory. *)
+Theorem C18_deploy_confined : forall (dsl : bool) (tgt : list string) (man : list entry) (p : list string),
+  In p (deploy_all dsl tgt man) -> within tgt p.
+Proof. exact deploy_all_safe. Qed.
+Print Assumptions C18_deploy_confined.
+
 (* non-vacuity: a benign archive (directories, a file, a relative symbolic link with "..", a hard
    link, an absolute name inside the destination) is accepted by the repaired check and extracted where
    expected; the hostile ones are refused; a nested manifest with a link entry is accepted. *)
@@ -74,5 +92,12 @@ Example C18_nonvacuous :
   tar_check d [("l", KSym "sub"); ("l/x", KFile)] = false /\
   validate [("bin", "scripts"); ("data/sub", "/p/x:link"); ("./conf", "c:copy")] = true /\
   validate [("../x", "src")] = false /\ validate [("a", "/p/src:link"); ("a/b", "s:copy")] = false /\
+  extract d ok = extract_lexical d ok /\
+  deploy_ok false [("bin", "scripts"); ("data/sub", "/p/x:link"); ("./conf", "c:copy")] = true /\
+  deploy_all false ["loc"; "i"] [("bin", "scripts"); ("data", "/p/x:link")] =
+    [["loc"; "i"; "bin"]; ["loc"; "i"; "data"]; ["loc"; "i"; "conf"]; ["loc"; "i"; "conf"; "flowir_package.yaml"]] /\
+  deploy_ok false [("conf", "/p/c:link")] = false /\ deploy_ok false [("./conf/", "/p/c:link")] = false /\
+  deploy_ok false [("conf", "/p/c"); ("conf/flowir_package.yaml", "/p/f:link")] = false /\
+  deploy_ok true [("conf", "/p/c"); ("conf/flowir_package.yaml", "/p/f:link")] = true /\
   stage_entry d "/p/stages/stage0/prod/out.txt" = Some (d ++ ["out.txt"])%list.
 Proof. vm_compute. repeat split; reflexivity. Qed.
